@@ -22,6 +22,7 @@ PROPERTIES = {
     'C09': ['c09'],
     'C11': ['c11'],
     'C12': ['c12'],
+    'C13': ['c13'],
     'C15': ['c15'],
     'C16': ['c16'],
     'C17': ['c17'],
